@@ -194,6 +194,10 @@ def run_case(case):
         else:
             label = edits.apply_edit(m2, rnd, edits.SINGLE_FACTOR)[0]
         variants.append(("edited:" + label, m2, "host-1\n"))
+        if case["focused"] and label != "tool2-source-mod":
+            # the transitively strong / directly weak tool changes: always part of a focused case
+            m3 = copy.deepcopy(final); tl2[1](m3)
+            variants.append(("edited:tool2-source-mod", m3, "host-1\n"))
         variants.append(("other-host", final, "host-2\n"))
         if len(uploaded) > 1:
             variants.append(("older-uploaded-state", uploaded[0], "host-1\n"))
